@@ -1293,14 +1293,21 @@ impl ReManager {
             (BaseRegLan::Epsilon, _) => e2,
             (_, BaseRegLan::Epsilon) => e1,
             // R . R^[i,j] --> R^[i+1, j+1]
-            (_, BaseRegLan::Loop(y, rng)) if *e1 == **y => {
+            // (the loop-merging rules apply only if the new bounds fit in 32bit integers)
+            (_, BaseRegLan::Loop(y, rng))
+                if *e1 == **y && rng.checked_add(&LoopRange::point(1)).is_some() =>
+            {
                 self.make(BaseRegLan::Loop(e1, rng.add_point(1)))
             }
-            (BaseRegLan::Loop(x, rng), _) if *e2 == **x => {
+            (BaseRegLan::Loop(x, rng), _)
+                if *e2 == **x && rng.checked_add(&LoopRange::point(1)).is_some() =>
+            {
                 self.make(BaseRegLan::Loop(e2, rng.add_point(1)))
             }
             // R^[a,b] . R^[b,c] -> R^[a+b, b+c]
-            (BaseRegLan::Loop(x, x_rng), BaseRegLan::Loop(y, y_rng)) if *x == *y => {
+            (BaseRegLan::Loop(x, x_rng), BaseRegLan::Loop(y, y_rng))
+                if *x == *y && x_rng.checked_add(y_rng).is_some() =>
+            {
                 self.make(BaseRegLan::Loop(x, x_rng.add(y_rng)))
             }
             // R . R -> R^2
@@ -1396,7 +1403,11 @@ impl ReManager {
                 // epsilon ^ [i, j] --> epsilon
                 BaseRegLan::Epsilon => self.epsilon,
                 // (R ^[i,j]) ^ [k, l] --> R ^[i *k, j*l] if the product is exact
-                BaseRegLan::Loop(x, x_rng) if x_rng.right_mul_is_exact(&range) => {
+                // (only if neither the exactness test nor the product overflows)
+                BaseRegLan::Loop(x, x_rng)
+                    if x_rng.checked_right_mul_is_exact(&range) == Some(true)
+                        && x_rng.checked_mul(&range).is_some() =>
+                {
                     self.make(BaseRegLan::Loop(x, x_rng.mul(&range)))
                 }
                 _ => self.make(BaseRegLan::Loop(e, range)),
